@@ -165,7 +165,8 @@ def _one(raw):
             failing = (rot + n) % 3 == 0
             if failing:
                 with open(path, 'w') as f:
-                    f.write('raise RuntimeError("import boom")\n')
+                    f.write(['raise RuntimeError("import boom")\n',
+                             'import sys\nsys.path.insert(0, "/xdv/leftover")\nraise RuntimeError("import boom")\n'][(rot + n) % 2])
             before = list(sys.path)
             try:
                 with warnings.catch_warnings():
@@ -178,9 +179,11 @@ def _one(raw):
             except Exception as ex:
                 if not failing:
                     bad.append(('import_by_path[%s]' % '/'.join(p), 'module', 'raised %r' % (ex,)))
-            if sys.path != before:
-                bad.append(('sys_path_restored[%s,%s]' % ('/'.join(p), 'failing' if failing else 'ok'), 'unchanged', [x for x in sys.path if x not in before]))
-                sys.path[:] = before
+            now = [x for x in sys.path if x != '/xdv/leftover']       # what the imported module itself added is its own business
+            if now != before:
+                bad.append(('sys_path_restored[%s,%s]' % ('/'.join(p), 'failing' if failing else 'ok'), 'unchanged',
+                            [x for x in now if x not in before] + ['-' + x for x in before if x not in now]))
+            sys.path[:] = before
             _purge_modules(topnames)
             if failing:
                 with open(path, 'w') as f:
